@@ -22,6 +22,33 @@ macro_rules! unit {
 }
 
 unit!(arena, "/verif/units/arena/harness.rs", { pub use intern::verif_hooks::*; });
+unit!(overload_order, "/verif/units/overload_order/harness.rs", { pub use artifact_content::verif_hooks::*; });
+unit!(folder_prefix, "/verif/units/folder_prefix/harness.rs", {
+    /// real code: build a database, register one iso-literal source under path `k`,
+    /// remove folder `f` through the real API and observe whether `k` is gone
+    pub fn api_removed(k: &str, f: &str) -> bool {
+        use intern::string_key::Intern;
+        let mut db = isograph_schema::IsographDatabase::<graphql_network_protocol::GraphQLAndJavascriptProfile>::default();
+        let key: common_lang_types::RelativePathToSourceFile = k.intern().into();
+        db.insert_iso_literal(key, String::new());
+        db.remove_iso_literals_from_path(f);
+        db.get_iso_literal(key).is_none()
+    }
+});
+unit!(alias_chunk, "/verif/units/alias_chunk/harness.rs", {
+    /// real code: the response-key chunk of a one-character string argument, minus "s_"
+    pub fn api_alias_char(c: char) -> char {
+        use intern::string_key::Intern;
+        let v: isograph_lang_types::NonConstantValue =
+            isograph_lang_types::NonConstantValueInner::String(c.to_string().intern().into());
+        let chunk = v.to_alias_str_chunk();
+        let rest = chunk.strip_prefix("s_").expect("string chunk starts with s_");
+        let mut it = rest.chars();
+        let r = it.next().expect("one char per source char");
+        assert!(it.next().is_none(), "exactly one char per source char");
+        r
+    }
+});
 unit!(lsp_positions, "/verif/units/lsp_positions/harness.rs", { pub use isograph_lsp::verif_hooks::*; });
 
 fn main() {
@@ -39,6 +66,9 @@ fn main() {
     let name = args[2].clone();
     let r = std::panic::catch_unwind(std::panic::AssertUnwindSafe(|| match unit.as_str() {
         "arena" => arena::harness::dispatch(&name, &mut src),
+        "overload_order" => overload_order::harness::dispatch(&name, &mut src),
+        "folder_prefix" => folder_prefix::harness::dispatch(&name, &mut src),
+        "alias_chunk" => alias_chunk::harness::dispatch(&name, &mut src),
         "lsp_positions" => lsp_positions::harness::dispatch(&name, &mut src),
         _ => false,
     }));
